@@ -223,10 +223,13 @@ class ImageWriter:
             input_stream.write(image.stream.get_data())
             input_stream.seek(0)
             reader = JBIG2StreamReader(input_stream)
-            segments = reader.get_segments()
-
             writer = JBIG2StreamWriter(fp)
-            writer.write_file(segments)
+            try:
+                segments = reader.get_segments()
+                writer.write_file(segments)
+            except struct.error as e:
+                # a segment header that is cut short or inconsistent
+                raise PDFValueError("Invalid JBIG2 data: %s" % e) from e
         return name
 
     def _save_bmp(
